@@ -205,7 +205,7 @@ fn psk_order_case(ra: bool, rb: bool) {
 
 // Id, nonce, index, count (C18): the real PSKLabel encoder is injective: two labels with the
 // same bytes have the same id (type, id / usage, group, epoch, nonce), index and count.  Ids
-// and nonces of every length 0..=1.
+// of every length 0..=1, nonces of 1 byte.
 fn psk_label_injective_case(ra: bool, rb: bool) {
     let b1: [u8; 1] = kani::any();
     let b2: [u8; 1] = kani::any();
@@ -214,21 +214,17 @@ fn psk_label_injective_case(ra: bool, rb: bool) {
     let (xa, xb): (u16, u16) = (kani::any(), kani::any());
     let (ca, cb): (u16, u16) = (kani::any(), kani::any());
     for_each_prefix(&b1, |id_a| {
-        for_each_prefix(&b2, |nonce_a| {
-            for_each_prefix(&b3, |id_b| {
-                for_each_prefix(&b4, |nonce_b| {
-                    let ia = make_id(ra, id_a, nonce_a);
-                    let ib = make_id(rb, id_b, nonce_b);
-                    let la = PSKLabel { id: &ia, index: xa, count: ca }.mls_encode_to_vec();
-                    let lb = PSKLabel { id: &ib, index: xb, count: cb }.mls_encode_to_vec();
-                    assert!(la.is_ok() && lb.is_ok());
-                    let (la, lb) = (la.ok().unwrap(), lb.ok().unwrap());
-                    if bytes_eq(&la, &lb) {
-                        assert!(ia == ib && xa == xb && ca == cb);
-                    }
-                    core::mem::forget((ia, ib));
-                })
-            })
+        for_each_prefix(&b3, |id_b| {
+            let ia = make_id(ra, id_a, &b2);
+            let ib = make_id(rb, id_b, &b4);
+            let la = PSKLabel { id: &ia, index: xa, count: ca }.mls_encode_to_vec();
+            let lb = PSKLabel { id: &ib, index: xb, count: cb }.mls_encode_to_vec();
+            assert!(la.is_ok() && lb.is_ok());
+            let (la, lb) = (la.ok().unwrap(), lb.ok().unwrap());
+            if bytes_eq(&la, &lb) {
+                assert!(ia == ib && xa == xb && ca == cb);
+            }
+            core::mem::forget((ia, ib));
         })
     });
 }
